@@ -45,6 +45,42 @@ def main(path):
             return 1
         log("[replay] the recorded run now passes")
         return 0
+    # engines that take one self-contained job: re-run exactly the recorded one
+    if eng == "rloop" and rep.get("job"):
+        jp, op = os.path.join(wd, "job.jsonl"), os.path.join(wd, "out.jsonl")
+        write_jsonl(jp, [rep["job"]])
+        mbt(prof, "rloop", jp, op, check=False)
+        lines = [json.loads(l) for l in open(op)] if os.path.exists(op) else []
+        bad = [l for l in lines if not l.get("summary")]
+        if bad or not lines:
+            log(f"[replay] still differs from the model: {json.dumps(bad[0]['problems'] if bad else 'process died')[:400]}")
+            log(f"VIOLATION property={prop} replay={path}")
+            return 1
+        log("[replay] the recorded block stream is now repaired as the model says")
+        return 0
+    if eng in ("compw", "config") and (rep.get("run") or rep.get("behaviour")):
+        jp, op = os.path.join(wd, "job.jsonl"), os.path.join(wd, "out.json")
+        write_jsonl(jp, [rep["run"] if eng == "compw" else rep["behaviour"]])
+        mbt(prof, eng, jp, op)
+        o = json.load(open(op))
+        if o["violations"]:
+            log(f"[replay] still fails: {json.dumps(o['violations'][0].get('detail'))[:400]}")
+            log(f"VIOLATION property={prop} replay={path}")
+            return 1
+        log("[replay] the recorded run now passes")
+        return 0
+    if eng == "capi" and rep.get("behaviour"):
+        bp, op, pp = os.path.join(wd, "beh.jsonl"), os.path.join(wd, "out.jsonl"), os.path.join(wd, "prog.txt")
+        write_jsonl(bp, [rep["behaviour"]])
+        p = mbt("prod", "capi", bp, op, pp, "0", check=False)
+        lines = [json.loads(l) for l in open(op)] if os.path.exists(op) else []
+        bad = [l for l in lines if not l.get("summary")]
+        if p.returncode != 0 or bad:
+            log(f"[replay] still fails: {json.dumps(bad[0].get('detail') if bad else 'process died')[:400]}")
+            log(f"VIOLATION property={prop} replay={path}")
+            return 1
+        log("[replay] the recorded behaviour now passes")
+        return 0
     log("[replay] recorded input:")
     log(json.dumps(rep, indent=1)[:3000])
     log(f"[replay] re-running ./check {prop} --tier {r.get('tier', 'quick')} with VERIF_SEED={r.get('seed', 0)}")
